@@ -31,8 +31,9 @@ type vHookState struct {
 
 	sched *vScheduler
 
-	seen  map[string]int // label -> arrivals
-	order []string       // "label@root" in arrival order (capped)
+	seen   map[string]int // label -> arrivals
+	active map[string]int // method -> calls in progress
+	order  []string       // "label@root" in arrival order (capped)
 
 	killLabel string
 	killN     int
@@ -45,7 +46,26 @@ type vHookState struct {
 	errLabel string // e.g. "WriteBlock.Write#2"
 }
 
-var vHook = &vHookState{seen: map[string]int{}}
+var vHook = &vHookState{seen: map[string]int{}, active: map[string]int{}}
+
+func verifEnter(method string, root string) {
+	vHook.mu.Lock()
+	vHook.active[method]++
+	vHook.mu.Unlock()
+}
+
+func verifExit(method string, root string) {
+	vHook.mu.Lock()
+	vHook.active[method]--
+	vHook.mu.Unlock()
+}
+
+// vHookActive reports how many calls of the method are in progress.
+func vHookActive(method string) int {
+	vHook.mu.Lock()
+	defer vHook.mu.Unlock()
+	return vHook.active[method]
+}
 
 var vErrInjected = errors.New("verif: injected write error")
 
